@@ -1141,13 +1141,26 @@ def gen_stmt_block(rnd, nin=None):
     nin = nin or rnd.randrange(1, 5)
     consts = [0, 1, 0x1f, 0x20, 0x21, 0x40, 0x41, 0x60]
 
-    def addr():
+    def fresh_addr():
         if rnd.random() < 0.6:
             return [("PUSH", hexv(rnd.choice(consts)))]
         k = rnd.randrange(1, nin + 1)
         if rnd.random() < 0.5:
             return [("DUP%d" % k, None)]
         return [("DUP%d" % k, None), ("PUSH", hexv(rnd.choice([1, 0x1f, 0x20, 0x40]))), ("ADD", None)]
+    # a focus address shared by several statements of the block: the same location is loaded more than once with
+    # stores to it, or to an overlapping location, in between
+    focus = fresh_addr()
+
+    def addr():
+        r = rnd.random()
+        if r < 0.4:
+            return list(focus)
+        if r < 0.55:
+            if focus[0][0] == "PUSH" and len(focus) == 1:
+                return [("PUSH", hexv(int(focus[0][1], 16) + rnd.choice([1, 0x1f, 0x20])))]
+            return list(focus) + [("PUSH", hexv(rnd.choice([1, 0x1f, 0x20]))), ("ADD", None)]
+        return fresh_addr()
 
     def with_depth(code, extra):
         # DUPk inside `code` refer to the inputs; shift by the values already pushed by the statement
@@ -1159,6 +1172,27 @@ def gen_stmt_block(rnd, nin=None):
                 out.append((n, v))
         return out
     stmts = []
+    if rnd.random() < 0.3:
+        # sandwich: three or more consumers of a load (or hash) of the focus location with one or two stores to that
+        # or an overlapping location somewhere in between -- loads written identically that read different states
+        mem = rnd.random() < 0.7
+        ld = [("MLOAD", None)] if mem else [("SLOAD", None)]
+        if mem and rnd.random() < 0.2:
+            ld = None
+        sinks = [0x21, 0x40, 0x1f, 0x60, 0x80, 0x100]
+        rnd.shuffle(sinks)
+        for i in range(rnd.randrange(3, 5)):
+            if ld is None:
+                src = [("PUSH", hexv(0x20))] + with_depth(list(focus), 1) + [("KECCAK256", None)]
+            else:
+                src = list(focus) + ld
+            stmts.append(src + [("PUSH", hexv(sinks[i])), ("SSTORE" if mem else "MSTORE", None)])
+        for _ in range(rnd.choice([1, 1, 2])):
+            val = [("DUP%d" % rnd.randrange(1, nin + 1), None)] if rnd.random() < 0.6 else [("PUSH", hexv(rnd.randrange(1, 300)))]
+            a = list(focus) if rnd.random() < 0.5 else (list(focus) + [("PUSH", hexv(rnd.choice([1, 0x1f]))), ("ADD", None)])
+            st = val + with_depth(a, 1) + [(rnd.choice(["MSTORE", "MSTORE8"]) if mem else "SSTORE", None)]
+            stmts.insert(rnd.randrange(1, len(stmts)), st)
+        return stmts, nin
     for _ in range(rnd.randrange(2, 6)):
         r = rnd.random()
         if r < 0.3:
